@@ -676,6 +676,72 @@ Section LookupsProofs.
     - apply IH; [assumption|tauto].
   Qed.
 
+  Lemma invB_phase_return s sx x l1 l2 q D' Ab' :
+    LInvB s -> l_inflight s = l1 ++ x :: l2 -> tq_id x = q -> tq_phase x = PDeliver ->
+    l_inflight sx = l1 ++ tq_set_phase PReturn x :: l2 -> l_nq sx = l_nq s -> l_log sx = l_log s ->
+    l_delivered sx = D' -> l_abandoned sx = Ab' ->
+    ((D' = l_delivered s /\ Ab' = l_abandoned s /\ is_announce c = false) \/
+     (exists y, tq_res x = Some y /\ D' = l_delivered s ++ [(q, tq_addr x, gr_id y, gr_payload y)] /\ Ab' = l_abandoned s) \/
+     (D' = l_delivered s /\ Ab' = l_abandoned s ++ [q] /\ (is_announce c = true -> lc_abandon_ctx c = true))) ->
+    LInvB sx.
+  Proof.
+    intros [B1 B2 B3 B4 B5 B6 B7 B8 B9 B10 B11 B12 B13 B14] A Eq P E1 E2 E3 E4 E5 Mode.
+    assert (Ix : In x (l_inflight s)) by (rewrite A; apply In_split3; tauto).
+    assert (Hother : forall y, In y l1 \/ In y l2 -> In y (l_inflight s) /\ tq_id y <> q).
+    { intros y Iy. split; [rewrite A; apply In_split3; tauto|].
+      rewrite <- Eq. apply (nodup_split_ids l1 x l2 y); [rewrite <- A; assumption|apply in_or_app; assumption]. }
+    destruct (B7 x Ix P) as (rx & Rx & Hrx).
+    pose proof (B6 x rx Ix Rx) as Lx. rewrite Eq in Lx.
+    assert (Qlog : In q (log_ids s)).
+    { unfold log_ids. apply in_map_iff. exists (q, tq_addr x, rx). split; [reflexivity|assumption]. }
+    assert (P' : tq_phase x <> PReturn) by (rewrite P; discriminate).
+    destruct (B11 x Ix P') as [Nd Na]. rewrite Eq in Nd, Na.
+    assert (Dsub : forall d, In d (l_delivered s) -> In d D').
+    { destruct Mode as [(-> & _)|[(y & _ & -> & _)|(-> & _)]]; intros d I; try assumption. apply in_or_app; left; assumption. }
+    assert (Asub : forall a, In a (l_abandoned s) -> In a Ab').
+    { destruct Mode as [(_ & -> & _)|[(y & _ & _ & ->)|(_ & -> & _)]]; intros d I; try assumption. apply in_or_app; left; assumption. }
+    assert (Dids : forall q0, In q0 (map (fun d : nat * addr * N * bytes => fst (fst (fst d))) D') -> In q0 (del_ids s) \/ q0 = q).
+    { destruct Mode as [(-> & _)|[(y & _ & -> & _)|(-> & _)]]; intros q0 I; try (left; exact I).
+      rewrite map_app in I. apply in_app_or in I. destruct I as [I|[<-|[]]]; [left; exact I|right; reflexivity]. }
+    assert (Aids : forall q0, In q0 Ab' -> In q0 (l_abandoned s) \/ q0 = q).
+    { destruct Mode as [(_ & -> & _)|[(y & _ & _ & ->)|(_ & -> & _)]]; intros q0 I; try (left; exact I).
+      apply in_app_or in I. destruct I as [I|[<-|[]]]; [left; exact I|right; reflexivity]. }
+    constructor; unfold log_ids, del_ids in *; rewrite ?E1, ?E2, ?E3, ?E4, ?E5.
+    - intros y I. apply In_split3 in I. destruct I as [I|[->|I]]; [apply B1; apply Hother; tauto|simpl; apply B1; assumption|apply B1; apply Hother; tauto].
+    - apply (nodup_replace l1 x _ l2); [reflexivity|rewrite <- A; assumption].
+    - assumption.
+    - assumption.
+    - intros y I Py. apply In_split3 in I. destruct I as [I|[->|I]]; [apply B5; [apply Hother; tauto|assumption]|discriminate|apply B5; [apply Hother; tauto|assumption]].
+    - intros y r0 I Ry. apply In_split3 in I. destruct I as [I|[->|I]]; [apply B6; [apply Hother; tauto|assumption]|simpl in *; apply B6; assumption|apply B6; [apply Hother; tauto|assumption]].
+    - intros y I Py. apply In_split3 in I. destruct I as [I|[->|I]]; [apply B7; [apply Hother; tauto|assumption]|discriminate|apply B7; [apply Hother; tauto|assumption]].
+    - intros q0 I. destruct (Dids q0 I) as [I' | ->]; [apply B8; assumption|assumption].
+    - destruct Mode as [(-> & _)|[(y & _ & -> & _)|(-> & _)]]; try assumption.
+      rewrite map_app. simpl. apply NoDup_snoc_nat; assumption.
+    - intros q0 I. destruct (Aids q0 I) as [I' | ->]; [apply B10; assumption|assumption].
+    - intros y I Py. apply In_split3 in I. destruct I as [I|[->|I]].
+      + destruct (Hother y (or_introl I)) as [Iy Ny]. destruct (B11 y Iy Py) as [N1 N2].
+        split; intros J; [destruct (Dids _ J)|destruct (Aids _ J)]; tauto.
+      + simpl in Py. congruence.
+      + destruct (Hother y (or_intror I)) as [Iy Ny]. destruct (B11 y Iy Py) as [N1 N2].
+        split; intros J; [destruct (Dids _ J)|destruct (Aids _ J)]; tauto.
+    - intros q0 a0 i p I.
+      destruct Mode as [(-> & _)|[(y & Ry & -> & _)|(-> & _)]]; try (apply B12; assumption).
+      apply in_app_or in I. destruct I as [I|[E|[]]]; [apply B12; assumption|].
+      injection E as <- <- <- <-. rewrite Rx in Ry. injection Ry as <-. exists rx. repeat split; assumption.
+    - intros An q0 a0 r0 I Hr. destruct (B13 An q0 a0 r0 I Hr) as [(z & Iz & Ez & Pz)|[D|Ab]].
+      + rewrite A in Iz. apply In_split3 in Iz. destruct Iz as [Iz|[->|Iz]].
+        * left. exists z. split; [apply In_split3; tauto|split; assumption].
+        * rewrite Eq in Ez. subst q0. destruct (log_unique s q a0 r0 (tq_addr x) rx B4 I Lx) as [-> ->].
+          destruct Mode as [(_ & _ & NA)|[(y & Ry & -> & _)|(_ & -> & _)]].
+          -- congruence.
+          -- right. left. rewrite Rx in Ry. injection Ry as <-. apply in_or_app. right. left. reflexivity.
+          -- right. right. apply in_or_app. right. left. reflexivity.
+        * left. exists z. split; [apply In_split3; tauto|split; assumption].
+      + right. left. apply Dsub. assumption.
+      + right. right. apply Asub. assumption.
+    - intros An Ne. destruct Mode as [(_ & -> & _)|[(y & _ & _ & ->)|(_ & _ & Hab)]]; [apply B14; assumption..|apply Hab; assumption].
+  Qed.
+
   Lemma invB_step s l : LInvA s -> LInvB s -> enabled s l = true -> LInvB (step s l).
   Proof.
     intros IA IB En.
@@ -753,9 +819,9 @@ Section LookupsProofs.
             + apply B7; [apply Hother; tauto|assumption].
             + simpl in Py. simpl. destruct (after_query_deliver_has_r r Py) as (y0 & -> & Hy). exists y0. split; [reflexivity|assumption].
             + apply B7; [apply Hother; tauto|assumption].
-          - intros q0 I. apply B8 in I. apply in_map_iff in I. destruct I as (e & <- & I). apply in_map. apply Hsub. assumption.
+          - intros q0 I. apply B8 in I. apply in_map_iff in I. destruct I as (e & <- & I). apply in_map_iff. exists e. split; [reflexivity|apply Hsub; assumption].
           - assumption.
-          - intros q0 I. apply B10 in I. apply in_map_iff in I. destruct I as (e & <- & I). apply in_map. apply Hsub. assumption.
+          - intros q0 I. apply B10 in I. apply in_map_iff in I. destruct I as (e & <- & I). apply in_map_iff. exists e. split; [reflexivity|apply Hsub; assumption].
           - intros y I Py. apply In_split3 in I. destruct I as [I|[->|I]].
             + apply B11; [apply Hother; tauto|assumption].
             + simpl. rewrite Eq. split; intros J; apply Nlog; rewrite Eq; [apply B8|apply B10]; assumption.
@@ -780,10 +846,375 @@ Section LookupsProofs.
       unfold Lookups.step. destruct (query_panics r); [|exact G].
       apply (invB_frame _ _) with (6 := G); destruct r; reflexivity.
     - (* QDeliver *)
-      admit.
+      pose proof En as En'. unfold Lookups.enabled in En'. apply andb_prop in En'. destruct En' as [_ T].
+      apply andb_prop in T. destruct T as [T Who].
+      destruct (tq_at_split _ _ _ T) as (x & l1 & l2 & A & Eq & P & _ & U & _ & R & Ad).
+      assert (Ix : In x (l_inflight s)) by (rewrite A; apply In_split3; tauto).
+      destruct (b_deliver_res s IB x Ix P) as (y & Ry & Hy).
+      unfold Lookups.step, Lookups.deliver. rewrite R, Ry, Ad.
+      destruct (is_announce c) eqn:An.
+      + unfold is_announce in An. destruct (lc_api c); try discriminate.
+        destruct (l_peers_closed s) eqn:PC.
+        * exfalso. destruct (a_peers_closed s IA PC) as (_ & Sd & _). destruct (a_stopped s IA Sd) as [_ E].
+          rewrite E in A. destruct l1; discriminate.
+        * eapply (invB_phase_return s _ x l1 l2 q); [exact IB|exact A|exact Eq|exact P|cbn; apply U|reflexivity|reflexivity|reflexivity|reflexivity|].
+          cbn. right. left. exists y. repeat split. assumption.
+      + assert (forall sx, l_inflight sx = l1 ++ tq_set_phase PReturn x :: l2 -> l_nq sx = l_nq s -> l_log sx = l_log s ->
+                           l_delivered sx = l_delivered s -> l_abandoned sx = l_abandoned s -> LInvB sx) as K.
+        { intros sx E1 E2 E3 E4 E5. apply (invB_phase_return s sx x l1 l2 q _ _ IB A Eq P E1 E2 E3 E4 E5).
+          left. repeat split. unfold is_announce. exact An. }
+        unfold is_announce in An.
+        destruct (lc_api c); try discriminate; try destruct (accept y); apply K; cbn; try reflexivity; apply U.
     - (* QAbandon *)
-      admit.
+      pose proof En as En'. unfold Lookups.enabled in En'. apply andb_prop in En'. destruct En' as [_ T].
+      apply andb_prop in T. destruct T as [T Who].
+      destruct (tq_at_split _ _ _ T) as (x & l1 & l2 & A & Eq & P & _ & U & _).
+      unfold Lookups.step.
+      eapply (invB_phase_return s _ x l1 l2 q); [exact IB|exact A|exact Eq|exact P|cbn; apply U|reflexivity|reflexivity|reflexivity|reflexivity|].
+      cbn. right. right. repeat split. intros An. rewrite An in Who. destruct (lc_abandon_ctx c); [reflexivity|].
+      exfalso. destruct (a_stopped s IA Who) as [_ E]. rewrite E in A. destruct l1; discriminate.
     - (* QFinish *)
-      admit.
-  Admitted.
+      pose proof En as En'. unfold Lookups.enabled in En'. apply andb_prop in En'. destruct En' as [_ T].
+      destruct (tq_at_split _ _ _ T) as (x & l1 & l2 & A & Eq & P & _ & _ & D & _).
+      destruct IB as [B1 B2 B3 B4 B5 B6 B7 B8 B9 B10 B11 B12 B13 B14].
+      assert (Hin : forall y, In y (l1 ++ l2) -> In y (l_inflight s)).
+      { intros y I. rewrite A. apply in_app_or in I. apply In_split3. tauto. }
+      assert (G : LInvB (set_inflight s (del_tq q (l_inflight s)))).
+      { constructor; unfold log_ids, del_ids in *; cbn; rewrite ?D; try assumption.
+        - intros y I. apply B1. apply Hin. assumption.
+        - rewrite A in B2. rewrite map_app in *. simpl in B2. apply NoDup_remove_1 in B2. assumption.
+        - intros y I. apply B5. apply Hin. assumption.
+        - intros y r0 I. apply B6. apply Hin. assumption.
+        - intros y I. apply B7. apply Hin. assumption.
+        - intros y I. apply B11. apply Hin. assumption.
+        - intros An q0 a0 r0 I Hr. destruct (B13 An q0 a0 r0 I Hr) as [(z & Iz & Ez & Pz)|[Dl|Ab]]; [left|right; left; assumption|right; right; assumption].
+          exists z. rewrite A in Iz. apply In_split3 in Iz. destruct Iz as [Iz|[->|Iz]].
+          + split; [apply in_or_app; tauto|split; assumption].
+          + congruence.
+          + split; [apply in_or_app; tauto|split; assumption]. }
+      unfold Lookups.step. destruct (closest_elem (addr_of s q) (res_of s q)); [|exact G].
+      apply (invB_frame _ _) with (6 := G); reflexivity.
+  Qed.
+
+  Theorem invB_reachable s : reachable s -> LInvB s.
+  Proof.
+    apply reachable_ind; [apply invB_init|]. intros s0 l R I E. apply invB_step; [apply invA_reachable|..]; assumption.
+  Qed.
+
+  (* ---------------------------------------------------------------- closest set, final set, what was sent *)
+  (* the element stems from a reply of THIS traversal: some query to its address got back a message
+     with "r", this id and (announce) exactly this token *)
+  Definition elem_logged (s : lstate) (e : elem) : Prop :=
+    exists q r, In (q, e_addr e, r) (l_log s) /\ gr_has_r r = true /\ gr_id r = e_id e /\
+                node_ok (e_addr e) (e_id e) = true /\
+                (is_announce c = true -> gr_token r = Some (e_data e)).
+
+  Definition strip (r : sendrec) : addr * bytes * N * Z * bool :=
+    (sr_dest r, sr_token r, sr_ih r, sr_port r, sr_implied r).
+  Definition recs_of (s : lstate) (e : elem) (sent : bool) : list sendrec :=
+    match lc_api c with
+    | AAnnounce => announce_rec c e sent
+    | _ => [mkSR (e_addr e) (e_data e) (lc_target c) 0%Z false (l_autoseq s) sent]
+    end.
+  Definition keys_of (e : elem) : list (addr * bytes * N * Z * bool) :=
+    match lc_api c with
+    | AAnnounce => map strip (announce_rec c e true)
+    | _ => [(e_addr e, e_data e, lc_target c, 0%Z, false)]
+    end.
+
+  Lemma strip_recs s e sent : map strip (recs_of s e sent) = keys_of e.
+  Proof.
+    unfold recs_of, keys_of, announce_rec. destruct (lc_api c); try reflexivity.
+    destruct (lc_ann c) as [[port imp]|]; [|reflexivity]. destruct (Z.eqb port 0 && negb imp); reflexivity.
+  Qed.
+
+  Definition sends_phase (p : opc) : nat :=
+    match p with OAnnounce => 1 | OClosePeers | ODone => 2 | _ => 0 end.
+
+  Record LInvC (s : lstate) : Prop := mkLInvC {
+    c_closest : forall e, In e (l_closest s) -> elem_logged s e;
+    c_final : forall e, In e (l_final s) -> elem_logged s e;
+    c_final_ann : is_announce c = true -> ann_late (l_owner s) (l_handle s) = true -> l_final s = l_closest s;
+    c_sends : match sends_phase (l_owner s) with
+              | 0 => l_sends s = [] /\ l_final s = []
+              | 1 => map strip (l_sends s) ++ flat_map keys_of (l_todo s) = flat_map keys_of (l_final s)
+              | _ => map strip (l_sends s) = flat_map keys_of (l_final s)
+              end;
+    c_put_seq : forall r, In r (l_sends s) -> sr_seq r = (if is_announce c then 0%Z else l_autoseq s)
+  }.
+
+  Lemma elem_logged_mono s s' e :
+    (forall x, In x (l_log s) -> In x (l_log s')) -> elem_logged s e -> elem_logged s' e.
+  Proof. intros Sub (q & r & I & H). exists q, r. split; [apply Sub; assumption|assumption]. Qed.
+
+  Lemma invC_init : LInvC (l_init c).
+  Proof. constructor; simpl; intros; try contradiction; try reflexivity; try (split; reflexivity); try discriminate. Qed.
+
+  Lemma invC_frame s s' :
+    l_closest s' = l_closest s -> l_final s' = l_final s -> l_log s' = l_log s -> l_owner s' = l_owner s ->
+    l_handle s' = l_handle s -> l_sends s' = l_sends s -> l_todo s' = l_todo s -> l_autoseq s' = l_autoseq s ->
+    LInvC s -> LInvC s'.
+  Proof.
+    intros E1 E2 E3 E4 E5 E6 E7 E8 [C1 C2 C3 C4 C5].
+    constructor; unfold elem_logged in *; rewrite ?E1, ?E2, ?E3, ?E4, ?E5, ?E6, ?E7, ?E8; assumption.
+  Qed.
+
+  Lemma closest_elem_logged s q x e :
+    LInvB s -> In x (l_inflight s) -> tq_id x = q ->
+    closest_elem (tq_addr x) (tq_res x) = Some e -> elem_logged s e.
+  Proof.
+    intros IB Ix Eq H. unfold Lookups.closest_elem in H. destruct (tq_res x) as [r|] eqn:R; [|discriminate].
+    destruct (gr_has_r r) eqn:Hr; [|discriminate]. destruct (node_ok (tq_addr x) (gr_id r)) eqn:Nk; [|discriminate].
+    simpl in H. pose proof (b_res s IB x r Ix R) as L.
+    unfold elem_logged, is_announce.
+    destruct (lc_api c).
+    - injection H as <-. exists (tq_id x), r. simpl. repeat split; try assumption. discriminate.
+    - destruct (gr_token r) as [t|] eqn:T; [|discriminate]. injection H as <-. exists (tq_id x), r. simpl.
+      repeat split; try assumption. intros _. assumption.
+    - injection H as <-. exists (tq_id x), r. simpl. repeat split; try assumption. discriminate.
+    - injection H as <-. exists (tq_id x), r. simpl. repeat split; try assumption. discriminate.
+  Qed.
+
+  Ltac cfin :=
+    cbn; try assumption; try (intros _ X; discriminate); try (split; assumption);
+    try (match goal with Api : lc_api _ = _ |- is_announce _ = true -> _ =>
+           let X := fresh in intros X; unfold is_announce in X; rewrite Api in X; discriminate end);
+    try (match goal with S0 : l_sends _ = [] |- forall r, In r _ -> _ =>
+           let r := fresh in let I := fresh in intros r I; cbn in I; rewrite S0 in I; destruct I end);
+    try (match goal with S0 : l_sends _ = [], F0 : l_final _ = [] |- _ => rewrite ?S0, ?F0; reflexivity end).
+
+  Lemma keys_none l : lc_api c = AAnnounce -> lc_ann c = None -> flat_map keys_of l = [].
+  Proof.
+    intros Api Ann. induction l as [|e l IH]; simpl; [reflexivity|]. rewrite IH.
+    unfold keys_of, announce_rec. rewrite Api, Ann. reflexivity.
+  Qed.
+
+  Ltac rwown := match goal with H : l_owner _ = _ |- _ => rewrite H in * end.
+
+  Lemma invC_step s l : LInvA s -> LInvB s -> LInvC s -> enabled s l = true -> LInvC (step s l).
+  Proof.
+    intros IA IB IC En.
+    destruct l;
+      try (apply (invC_frame s); [..|assumption]; unfold Lookups.step; cbn; destr_all; fail).
+    all: pose proof En as En'; unfold Lookups.enabled in En'; apply andb_prop in En'; destruct En' as [_ T]; boolhyps.
+    all: destruct IC as [C1 C2 C3 C4 C5].
+    - (* OStartTrav *)
+      unfold Lookups.step. rwown. constructor; cbn; try assumption; try (intros _ X; discriminate).
+    - (* OGetNodes *)
+      unfold Lookups.step. rwown. cbn in C4. destruct C4 as [S0 F0].
+      assert (l_handle s = false) as Hh.
+      { destruct (l_handle s) eqn:Hh; [|reflexivity]. destruct (a_handle s IA Hh) as [_ X]. rewrite T in X. discriminate. }
+      destruct (lc_sn c); [destruct (is_announce c) eqn:?|destruct (is_announce c || repaired c)..];
+        constructor; cbn; rewrite ?Hh; cfin.
+    - (* OStalled *)
+      unfold Lookups.step. rwown. cbn in C4.
+      destruct (lc_api c); try destruct (l_got s); constructor; cfin.
+    - (* OCtx *)
+      unfold Lookups.step. rwown. cbn in C4. constructor; cbn; try assumption; try (intros _ X; discriminate).
+    - (* OStopStep *)
+      unfold Lookups.step. rwown. cbn in C4. destruct C4 as [S0 F0].
+      destruct (lc_api c) eqn:Api; [destruct (l_err s)|..]; constructor; cfin.
+    - (* OStoppedStep *)
+      unfold Lookups.step. rwown. cbn in C4. destruct C4 as [S0 F0].
+      destruct (lc_api c) eqn:Api; [|destruct (lc_ann c) eqn:Ann|..]; constructor; cfin.
+      + rewrite S0, (keys_none _ Api Ann). reflexivity.
+    - (* OSend *)
+      unfold Lookups.step. rwown. cbn in C4.
+      destruct (l_todo s) as [|e rest] eqn:Td; [discriminate|].
+      constructor; cbn; rewrite ?H; cbn; try assumption.
+      + fold (recs_of s e sent). rewrite map_app, strip_recs, <- app_assoc. simpl in C4. exact C4.
+      + intros r I. apply in_app_or in I. destruct I as [I|I]; [apply C5; assumption|].
+        unfold is_announce, announce_rec in *. destruct (lc_api c); try (destruct I as [<-|[]]; reflexivity).
+        destruct (lc_ann c) as [[port imp]|]; [|destruct I]. destruct (Z.eqb port 0 && negb imp); [destruct I|].
+        destruct I as [<-|[]]. reflexivity.
+    - (* OSendsDone *)
+      unfold Lookups.step. rwown. cbn in C4. rewrite H0 in C4. simpl in C4. rewrite app_nil_r in C4.
+      destruct (is_announce c) eqn:An; constructor; cbn; rewrite ?An; try assumption;
+        try (intros X _; apply C3; [assumption|reflexivity]); try (intros X; congruence).
+    - (* OCloseP *)
+      unfold Lookups.step. rwown. cbn in C4. constructor; cbn; try assumption.
+      intros An _. apply C3; [assumption|reflexivity].
+    - (* QReturn *)
+      assert (Sub : forall x, In x (l_log s) -> In x (l_log (step s (QReturn q r)))).
+      { intros x I. unfold Lookups.step. destruct (query_panics r), r; cbn; try assumption; apply in_or_app; left; assumption. }
+      assert (F : l_closest (step s (QReturn q r)) = l_closest s /\ l_final (step s (QReturn q r)) = l_final s /\
+                  l_owner (step s (QReturn q r)) = l_owner s /\ l_handle (step s (QReturn q r)) = l_handle s /\
+                  l_sends (step s (QReturn q r)) = l_sends s /\ l_todo (step s (QReturn q r)) = l_todo s /\
+                  l_autoseq (step s (QReturn q r)) = l_autoseq s).
+      { unfold Lookups.step. destruct (query_panics r), r; cbn; repeat split. }
+      destruct F as (F1 & F2 & F3 & F4 & F5 & F6 & F7).
+      constructor; rewrite ?F1, ?F2, ?F3, ?F4, ?F5, ?F6, ?F7; try assumption.
+      + intros e I. apply (elem_logged_mono s); [assumption|apply C1; assumption].
+      + intros e I. apply (elem_logged_mono s); [assumption|apply C2; assumption].
+    - (* QDeliver *)
+      destruct (tq_at_split _ _ _ H) as (x & l1 & l2 & A & Eq & P & _ & U & _ & R & Ad).
+      unfold Lookups.step, Lookups.deliver. rewrite R.
+      destruct (tq_res x) as [y|]; [|apply (invC_frame s); try reflexivity; constructor; assumption].
+      destruct (lc_api c) eqn:Api.
+      + apply (invC_frame s); try reflexivity; constructor; assumption.
+      + destruct (l_peers_closed s); apply (invC_frame s); try reflexivity; constructor; assumption.
+      + unfold is_announce in H0. rewrite Api in H0. apply opc_eqb_eq in H0. rewrite H0 in *. cbn in C4.
+        destruct (accept y); try (apply (invC_frame s); try reflexivity; try (cbn; symmetry; assumption); constructor; rewrite ?H0; assumption).
+        * constructor; cbn; try assumption; try (intros _ X; discriminate).
+      + unfold is_announce in H0. rewrite Api in H0. apply opc_eqb_eq in H0. rewrite H0 in *. cbn in C4. destruct C4 as [S0 F0].
+        destruct (accept y); try (apply (invC_frame s); try reflexivity; constructor; rewrite ?H0; cbn; try assumption; split; assumption).
+        constructor; cbn; rewrite ?H0; cbn; try assumption; try (split; assumption).
+        intros r I. rewrite S0 in I. destruct I.
+    - (* QFinish *)
+      destruct (tq_at_split _ _ _ T) as (x & l1 & l2 & A & Eq & P & _ & _ & D & R & Ad).
+      assert (Ix : In x (l_inflight s)) by (rewrite A; apply In_split3; tauto).
+      unfold Lookups.step. rewrite R, Ad.
+      destruct (closest_elem (tq_addr x) (tq_res x)) as [e|] eqn:CE;
+        [|apply (invC_frame s); try reflexivity; constructor; assumption].
+      pose proof (closest_elem_logged s q x e IB Ix Eq CE) as Le.
+      constructor; cbn; try assumption.
+      + intros e0 I. destruct (push_incl _ _ _ I) as [->|I']; [assumption|apply C1; assumption].
+      + intros An Late. exfalso. pose proof (a_ann_stopped s IA An Late) as Sd.
+        destruct (a_stopped s IA Sd) as [_ E]. rewrite E in A. destruct l1; discriminate.
+  Qed.
+
+  Theorem invC_reachable s : reachable s -> LInvC s.
+  Proof.
+    apply reachable_ind; [apply invC_init|]. intros s0 l R I E.
+    apply invC_step; [apply invA_reachable|apply invB_reachable|..]; assumption.
+  Qed.
+
+  (* ---------------------------------------------------------------- getput: the owner computes client_get / client_autoseq *)
+  Notation cget := (client_get sha1 ed_verify (lc_variant c) (lc_tgt c) (lc_salt c)).
+  Notation cauto := (client_autoseq sha1 ed_verify (lc_variant c) (lc_tgt c) (lc_salt c)).
+
+  Definition pre_wait (p : opc) : bool := match p with OStart | OStartNodes => true | _ => false end.
+  Definition post_wait (p : opc) : bool := match p with OStart | OStartNodes | OWait => false | _ => true end.
+
+  Record LInvD (s : lstate) : Prop := mkLInvD {
+    d_pre : pre_wait (l_owner s) = true -> l_recv s = [] /\ l_cur s = None /\ l_got s = false /\ l_autoseq s = 0%Z /\ l_err s = None;
+    d_wait_err : l_owner s = OWait -> l_err s = None;
+    d_get_wait : lc_api c = AGet -> l_owner s = OWait -> forall rest, cget (l_recv s ++ rest) None = cget rest (l_cur s);
+    d_get_done : lc_api c = AGet -> post_wait (l_owner s) = true -> cget (l_recv s) None = COResult (l_cur s);
+    d_got : lc_api c = AGet -> (l_got s = true <-> l_cur s <> None);
+    d_found : lc_api c = AGet -> post_wait (l_owner s) = true -> l_err s = None -> l_got s = true;
+    d_put_wait : lc_api c = APut -> l_owner s = OWait -> forall rest, cauto (l_recv s ++ rest) 0%Z = cauto rest (l_autoseq s);
+    d_put_done : lc_api c = APut -> post_wait (l_owner s) = true -> cauto (l_recv s) 0%Z = Some (l_autoseq s);
+    d_recv_logged : forall it, In it (l_recv s) ->
+                    exists q a r, In (q, a, r) (l_log s) /\ gr_item r = it /\ gr_has_r r = true
+  }.
+
+  Lemma invD_init : LInvD (l_init c).
+  Proof.
+    constructor; simpl; intros; try discriminate; try contradiction; try reflexivity; try tauto.
+    all: try (repeat split; reflexivity).
+    all: split; [discriminate|intros N; exfalso; apply N; reflexivity].
+  Qed.
+
+  Lemma invD_frame s s' :
+    l_owner s' = l_owner s -> l_recv s' = l_recv s -> l_cur s' = l_cur s -> l_got s' = l_got s ->
+    l_autoseq s' = l_autoseq s -> l_err s' = l_err s -> (forall x, In x (l_log s) -> In x (l_log s')) ->
+    LInvD s -> LInvD s'.
+  Proof.
+    intros E1 E2 E3 E4 E5 E6 Sub [D1 D2 D3 D4 D5 D6 D7 D8 D9].
+    constructor; rewrite ?E1, ?E2, ?E3, ?E4, ?E5, ?E6; try assumption.
+    intros it I. destruct (D9 it I) as (q & a & r & L & H). exists q, a, r. split; [apply Sub; assumption|assumption].
+  Qed.
+
+  Lemma invD_step s l : LInvB s -> LInvD s -> enabled s l = true -> LInvD (step s l).
+  Proof.
+    intros IB ID En.
+    destruct l;
+      try (apply (invD_frame s); [..|assumption]; unfold Lookups.step; cbn; destr_all; try (intros x I; exact I); fail).
+    all: pose proof En as En'; unfold Lookups.enabled in En'; apply andb_prop in En'; destruct En' as [_ T]; boolhyps.
+    all: destruct ID as [D1 D2 D3 D4 D5 D6 D7 D8 D9].
+    - (* OStartTrav *)
+      unfold Lookups.step. rwown. cbn in *. constructor; cbn; try assumption; intros; try discriminate.
+    - (* OGetNodes *)
+      unfold Lookups.step. rwown. cbn in *. destruct (D1 eq_refl) as (R0 & C0 & G0 & A0 & E0).
+      destruct (lc_sn c); [destruct (is_announce c)|destruct (is_announce c || repaired c)..];
+        constructor; cbn; rewrite ?R0, ?C0, ?G0, ?A0, ?E0; intros; try discriminate; try reflexivity; try assumption; try tauto.
+    - (* OStalled *)
+      unfold Lookups.step. rwown. cbn in *.
+      destruct (lc_api c) eqn:Api; try destruct (l_got s) eqn:Got;
+        constructor; cbn; intros; try discriminate; try assumption; try tauto;
+        try (rewrite <- (app_nil_r (l_recv s)); first [apply D3|apply D7]; reflexivity).
+      + apply D5; assumption.
+    - (* OCtx *)
+      unfold Lookups.step. rwown. cbn in *.
+      constructor; cbn; intros; try discriminate; try assumption; try tauto.
+      + rewrite <- (app_nil_r (l_recv s)). apply D3; [assumption|reflexivity].
+      + apply D5; assumption.
+      + rewrite <- (app_nil_r (l_recv s)). apply D7; [assumption|reflexivity].
+    - (* OStopStep *)
+      unfold Lookups.step. rwown. cbn in *.
+      destruct (lc_api c) eqn:Api; [destruct (l_err s)|..]; constructor; cbn; intros; try discriminate; try assumption; try tauto;
+        try (apply D4; [assumption|reflexivity]); try (apply D6; [assumption|reflexivity|assumption]);
+        try (apply D8; [assumption|reflexivity]); try (apply D5; assumption).
+    - (* OStoppedStep *)
+      unfold Lookups.step. rwown. cbn in *.
+      destruct (lc_api c) eqn:Api; [|destruct (lc_ann c)|..]; constructor; cbn; intros; try discriminate; try assumption; try tauto;
+        try (apply D4; [assumption|reflexivity]); try (apply D6; [assumption|reflexivity|assumption]);
+        try (apply D8; [assumption|reflexivity]); try (apply D5; assumption).
+    - (* OSend *)
+      unfold Lookups.step. rwown. cbn in *. destruct (l_todo s); [discriminate|].
+      constructor; cbn; rewrite ?H; cbn; intros; try discriminate; try assumption; try tauto;
+        try (apply D4; [assumption|reflexivity]); try (apply D6; [assumption|reflexivity|assumption]);
+        try (apply D8; [assumption|reflexivity]); try (apply D5; assumption).
+    - (* OSendsDone *)
+      unfold Lookups.step. rwown. cbn in *.
+      destruct (is_announce c); constructor; cbn; intros; try discriminate; try assumption; try tauto;
+        try (apply D4; [assumption|reflexivity]); try (apply D6; [assumption|reflexivity|assumption]);
+        try (apply D8; [assumption|reflexivity]); try (apply D5; assumption).
+    - (* OCloseP *)
+      unfold Lookups.step. rwown. cbn in *.
+      constructor; cbn; intros; try discriminate; try assumption; try tauto;
+        try (apply D4; [assumption|reflexivity]); try (apply D6; [assumption|reflexivity|assumption]);
+        try (apply D8; [assumption|reflexivity]); try (apply D5; assumption).
+    - (* QReturn *)
+      apply (invD_frame s); try (unfold Lookups.step; destruct (query_panics r), r; reflexivity); [|constructor; assumption].
+      intros x I. unfold Lookups.step. destruct (query_panics r), r; cbn; try assumption; apply in_or_app; left; assumption.
+    - (* QDeliver *)
+      destruct (tq_at_split _ _ _ H) as (x & l1 & l2 & A & Eq & P & _ & U & _ & R & Ad).
+      assert (Ix : In x (l_inflight s)) by (rewrite A; apply In_split3; tauto).
+      destruct (b_deliver_res s IB x Ix P) as (y & Ry & Hy).
+      pose proof (b_res s IB x y Ix Ry) as Ly.
+      unfold Lookups.step, Lookups.deliver. rewrite R, Ry.
+      destruct (lc_api c) eqn:Api.
+      + apply (invD_frame s); try reflexivity; [tauto|constructor; assumption].
+      + destruct (l_peers_closed s); apply (invD_frame s); try reflexivity; try tauto; constructor; assumption.
+      + (* Get *)
+        unfold is_announce in H0. rewrite Api in H0. apply opc_eqb_eq in H0.
+        assert (Hlog : forall it, In it (l_recv s ++ [gr_item y]) ->
+                        exists q0 a r, In (q0, a, r) (l_log s) /\ gr_item r = it /\ gr_has_r r = true).
+        { intros it I. apply in_app_or in I. destruct I as [I|[<-|[]]]; [apply D9; assumption|].
+          exists (tq_id x), (tq_addr x), y. repeat split; assumption. }
+        destruct (accept y) as [|g|g|] eqn:Acc; try (apply (invD_frame s); try reflexivity; [tauto|constructor; assumption]).
+        * (* immutable: ends the wait *)
+          constructor; cbn; intros; try discriminate; try assumption; try reflexivity; try congruence.
+          -- rewrite (D3 eq_refl H0 [gr_item y]). cbn [Bep44.client_get]. unfold Lookups.accept in Acc. rewrite Acc. reflexivity.
+          -- split; [intros _; discriminate|intros _; reflexivity].
+        * (* mutable: running maximum *)
+          constructor; cbn; rewrite ?H0; intros; try discriminate; try assumption; try congruence.
+          -- apply D2. assumption.
+          -- rewrite <- app_assoc. simpl. rewrite (D3 eq_refl H0 (gr_item y :: rest)).
+             cbn [Bep44.client_get]. unfold Lookups.accept in Acc. rewrite Acc. reflexivity.
+          -- split; [intros _|intros _; reflexivity].
+             destruct (l_cur s) as [cur|]; [destruct (Z.leb (res_seq cur) (res_seq g))|]; discriminate.
+      + (* Put *)
+        unfold is_announce in H0. rewrite Api in H0. apply opc_eqb_eq in H0.
+        assert (Hlog : forall it, In it (l_recv s ++ [gr_item y]) ->
+                        exists q0 a r, In (q0, a, r) (l_log s) /\ gr_item r = it /\ gr_has_r r = true).
+        { intros it I. apply in_app_or in I. destruct I as [I|[<-|[]]]; [apply D9; assumption|].
+          exists (tq_id x), (tq_addr x), y. repeat split; assumption. }
+        destruct (accept y) as [|g|g|] eqn:Acc; try (apply (invD_frame s); try reflexivity; [tauto|constructor; assumption]).
+        * constructor; cbn; rewrite ?H0; intros; try discriminate; try assumption; try congruence.
+          -- apply D2. assumption.
+          -- rewrite <- app_assoc. simpl. rewrite (D7 eq_refl H0 (gr_item y :: rest)).
+             cbn [Bep44.client_autoseq]. unfold Lookups.accept in Acc. rewrite Acc. reflexivity.
+        * constructor; cbn; rewrite ?H0; intros; try discriminate; try assumption; try congruence.
+          -- apply D2. assumption.
+          -- rewrite <- app_assoc. simpl. rewrite (D7 eq_refl H0 (gr_item y :: rest)).
+             cbn [Bep44.client_autoseq]. unfold Lookups.accept in Acc. rewrite Acc. reflexivity.
+  Qed.
+
+  Theorem invD_reachable s : reachable s -> LInvD s.
+  Proof.
+    apply reachable_ind; [apply invD_init|]. intros s0 l R I E. apply invD_step; [apply invB_reachable|..]; assumption.
+  Qed.
 End LookupsProofs.
